@@ -32,7 +32,16 @@ def _write_if_changed(path, data):
     return True
 
 
-def assemble(repo):
+def _kit_imports():
+    """explicit (non-glob) imports of every public kit item: an explicit import shadows `use super::*`, so a private helper
+    of the file under test that happens to share a name with a kit function (hex, fail, check, ...) cannot make the harness ambiguous"""
+    txt = open(os.path.join(VERIF, 'native', 'main.rs')).read()
+    names = sorted(set(re.findall(r'(?m)^pub (?:fn|struct|enum|const|static|type) (\w+)', txt)))
+    return ('use crate::verif_kit::{%s};' % ', '.join(names)).encode()
+
+
+def assemble(repo, skip=()):
+    """skip: source files whose native module is left out (the module does not compile against this tree)"""
     add = {}
     for fn in sorted(os.listdir(NDIR)):
         if fn.endswith('.rs'):
@@ -43,12 +52,12 @@ def assemble(repo):
             full = os.path.join(root, f)
             rel = os.path.relpath(full, repo)
             data = open(full, 'rb').read()
-            if rel in add:
+            if rel in add and rel not in skip:
                 h = open(add[rel], 'rb').read()
                 if rel == 'src/main.rs':
                     data += b'\n#[cfg(test)]\n#[allow(unused_imports, dead_code)]\npub mod verif_kit {\n' + h + b'\n}\n'
                 else:
-                    data += b'\n#[cfg(test)]\n#[allow(unused_imports, dead_code, unused_variables)]\npub(crate) mod verif_native {\n    use super::*;\n    use crate::verif_kit::*;\n    use std::sync::{Arc, Mutex};\n' + h + b'\n}\n'
+                    data += b'\n#[cfg(test)]\n#[allow(unused_imports, dead_code, unused_variables)]\npub(crate) mod verif_native {\n    use super::*;\n    use crate::verif_kit::*;\n    ' + _kit_imports() + b'\n    use std::sync::{Arc, Mutex};\n' + h + b'\n}\n'
             _write_if_changed(os.path.join(NSRC, rel), data)
             wanted.add(rel)
     for rel in add:
@@ -84,9 +93,9 @@ def _run_suites_unlocked(prefixes, repo, tier='quick', seed=0, timeout_s=None):
     return r
 
 
-def _run_suites(prefixes, repo, tier, seed, timeout_s):
+def _run_suites(prefixes, repo, tier, seed, timeout_s, _skip=()):
     t0 = time.time()
-    missing = assemble(repo)
+    missing = assemble(repo, skip=_skip)
     res = {'status': 'undecided', 'suites': [], 'fails': [], 'reason': None, 'wall_s': 0, 'cmd': None}
     if missing:
         res['reason'] = 'source file for native module missing: %s' % ', '.join(missing)
@@ -113,6 +122,19 @@ def _run_suites(prefixes, repo, tier, seed, timeout_s):
         # (std::process::exit / abort inside the real code) -- the suites that did not report DONE are unfinished
         killed = re.search(r"\((exit status): (\d+)\)", out)
     if re.search(r'(?m)^error(\[E\d+\])?:', out) and 'test result' not in out and not killed:
+        # the harness does not compile against this tree.  If the errors sit in files that carry a native module (and not in
+        # the kit), leave those modules out and run the rest once: their suites are reported as not compiled (undecided).
+        bad = sorted(set(re.findall(r'(?m)^\s*--> (src/[\w/]+\.rs):\d+', out)))
+        natives = set('src/' + fn[:-3].replace('__', '/') + '.rs' for fn in os.listdir(NDIR) if fn.endswith('.rs'))
+        drop = [b for b in bad if b in natives and b != 'src/main.rs']
+        if drop and not _skip and 'src/main.rs' not in bad:
+            r2 = _run_suites(prefixes, repo, tier, seed, timeout_s, _skip=tuple(drop))
+            r2['not_compiled'] = drop
+            note = 'native modules left out (do not compile against this tree): ' + ', '.join(drop)
+            r2['reason'] = (r2.get('reason') + '; ' if r2.get('reason') else '') + note
+            if r2['status'] == 'ok':
+                r2['status'] = 'ok'          # the suites that ran found nothing; the others are named in `reason`
+            return r2
         res['reason'] = 'native harness does not compile against this tree: ' + '; '.join(re.findall(r'(?m)^error.*$', out)[:3])
         return res
     for m in re.finditer(r'NATIVE-DONE suite=(\S+) cases=(\d+) failures=(\d+)', out):
